@@ -9,7 +9,10 @@ CLAIMED = {
         "EVERY non-negative leaf magnitude (unbounded integers) and, in c01.count, for EVERY repetition count k; "
         "scaffolding (tree shapes of depth <= 3, small k, alignments, divisors up to 64, residue classes) is "
         "enumerated and stated. The count reduction is justified by QF_BV sumset lemmas discharged by z3 (cvc5 "
-        "cross-check) for d <= 12/16. Numerical expansion is checked choice-exhaustively on leaves 0..9.",
+        "cross-check) for d <= 12/16. Numerical expansion is checked choice-exhaustively on leaves 0..9. Also: consecutive "
+        "paddings for every pair of alignments from {2,3,4,6,8} with an unbounded leaf; operand immutability incl. "
+        "augmented assignment on aliases; the same operation applied to look-alike sets (equal min/max/residues mod 32) in "
+        "one process; concrete witnesses with leaves ~2**60 (machine-float slips are invisible to the engine).",
         note="Trusts CrossHair's models of int arithmetic/sets (every counterexample is replayed in plain CPython; "
         "non-reproducing ones are counted as spurious) and z3. Outside: depth > 3, leaf cardinality > 3, general "
         "lemma for d > 16, negative leaves.",
@@ -22,7 +25,9 @@ CLAIMED = {
         "exhausted condition), variant count symbolic up to 2**64 through the real static tag helper, extents "
         "64*q+r symbolic, parametrised composite shapes with symbolic capacities vs an interval oracle written from "
         "the Specification; exact set equality (expansion, residues mod 8/16/32/64/3/7) for the shape catalogue with "
-        "small capacities as choice variables.",
+        "small capacities as choice variables; every sequence of 3-4 structure members / 2-3 union variants from 11 / 12 "
+        "member types (exact sets), unions with constants at the tag-width boundaries, members' own sets re-checked "
+        "after the container was expanded.",
         note="Shapes are scaffolding (catalogue in vp/types.py + parametrised shapes, depth <= 3). math.log2 realises "
         "its argument, so the engine enumerates the <= 65 bit lengths of a capacity rather than reasoning about them "
         "symbolically. Trusts CrossHair int model + z3; counterexamples are replayed concretely.",
@@ -51,7 +56,8 @@ CLAIMED = {
         "independent tree evaluator (exact Fractions) or both must be 'undefined'. Integer atoms are unbounded except "
         "in divisor/exponent/bitwise positions ([-2,2]); all type-correct operator pairs (depth 2), unary interplay, "
         "seeded depth-3 trees, operand-kind x operator definedness, set algebra, literal spellings and the value sinks "
-        "(constant, capacity, @assert, @print, @extent).",
+        "(constant, capacity, @assert, @print, @extent); string comparison under NFC for concatenated pieces (literal and "
+        "escape spellings).",
         note="Identifier injection and @capture are harness-side (subclass of the real DataTypeBuilder). "
         "Grammar.parse on concrete text runs natively (tracing off) - same real code, not traced. Non-integer "
         "exponents are outside the claim (pydsdl uses floats there).",
@@ -154,7 +160,7 @@ CLAIMED = {
         text="Symbolic execution of the real cross-definition checks on real Structure/Delimited/Service objects: "
         "majors, minors, port-IDs (present/absent) and extents are symbolic over their whole legal ranges; accepted "
         "<=> the rule as stated in C11, for every pair (collision rule, pairwise minor rule, both argument orders) "
-        "and for the grouping function on 2-3 definitions.",
+        "and for the grouping function on 2-3 definitions (also with members of one group separated by another definition).",
         note="Kinds/names/sealing are enumerated scaffolding; majors in the grouping conditions come from {0,1,2,255} "
         "because the code keys a dict by them (realisation). Which lists the reader passes to these functions is "
         "covered under C19, not here.",
@@ -165,7 +171,8 @@ CLAIMED = {
         text="Symbolic execution of the real Constant constructor: the initializer is an UNBOUNDED symbolic integer "
         "(or n/den with unbounded n, den in {2,3,5,7,10}; or largest-finite + n/den for floats; or a string of 0..2 "
         "symbolic characters) for every width 1..64 x signedness x cast mode; accepted <=> the Specification's range "
-        "rule and the stored value equals the initializer exactly.",
+        "rule and the stored value equals the initializer exactly; 23 listed initializer strings (lone surrogates, Latin-1, "
+        "combining marks) for six types, because str.encode is a C boundary where the engine realises.",
         note="Denominators are concrete (symbolic gcd forks without bound). Error-message formatting is stubbed "
         "(template returned un-interpolated when an argument is symbolic). Text-level path (`int7 K = a`) is covered "
         "under C04/C05 sinks.",
